@@ -11,7 +11,9 @@
 package main
 
 import (
+	"context"
 	"fmt"
+	"io"
 	"strings"
 	"time"
 
@@ -434,6 +436,166 @@ func (e *env) runCase(hc *hcase) {
 	}
 }
 
+// renewalCase: a CLIENT channel handles OpenSecureChannel responses through the real
+// handleOpenSecureChannelResponse (hook); a frame secured under the first token is
+// delivered, the token is renewed, its expiry runs (real scheduleExpiration), and the
+// adversary re-sends the captured frame. ch/tok: ids of the first token.
+func (e *env) renewalCase(ch, tok uint32, mode ua.MessageSecurityMode) {
+	uri := ua.SecurityPolicyURIBasic256Sha256
+	cfg := h.RecvSecureConfig(uri, mode, e.keyA, e.keyB.CertDER)
+	rc, err := h.RecvFreshChannel(cfg, h.RecvAck(65535, 65535, 512, 2*1024*1024), false, 0, 0)
+	if err != nil {
+		e.r.InfraError = "channel: " + err.Error()
+		return
+	}
+	defer rc.Close()
+	defer rc.SC.VerifForget()
+	l1, s1, l2, s2 := e.rnd.Bytes(32), e.rnd.Bytes(32), e.rnd.Bytes(32), e.rnd.Bytes(32)
+	body := e.service(40, true, 9)
+	chunk := h.RecvRefChunk{Type: 'F', ChannelID: ch, TokenID: tok, Seq: 5, Req: 9, Body: body}
+	sealer, err := h.NewRecvSealer(uri, mode, l1, s1)
+	if err != nil {
+		e.r.InfraError = err.Error()
+		return
+	}
+	frame, err := sealer.Seal(chunk)
+	if err != nil {
+		e.r.InfraError = err.Error()
+		return
+	}
+	recv := func() string {
+		rc.Peer.Write(frame)
+		rc.Conn.SetReadDeadline(time.Now().Add(20 * time.Second))
+		ctx, cancel := context.WithTimeout(context.Background(), 20*time.Second)
+		defer cancel()
+		return h.RecvResultText(rc.SC.Receive(ctx))
+	}
+	if err := rc.SC.VerifHandleOPNResponse(ch, tok, time.Now(), 3600000, l1, s1); err != nil {
+		e.r.InfraError = err.Error()
+		return
+	}
+	first := recv()
+	if err := rc.SC.VerifHandleOPNResponse(ch, tok+1, time.Now(), 3600000, l2, s2); err != nil {
+		e.r.InfraError = err.Error()
+		return
+	}
+	rc.SC.VerifExpireNow(ch, tok)
+	second := recv()
+	line := fmt.Sprintf("renewal %d o:%d:%d:1 f:%d:1:%s o:%d:%d:2 e:%d:%d:1 f:%d:1:%s", mode, ch, tok, ch, chunk.Token(), ch, tok+1, ch, tok, ch, chunk.Token())
+	e.r.Count(line, true)
+	e.r.Hit("adversary:copy-after-renewal")
+	e.r.Hit(map[bool]string{true: "renewal:tok=chan", false: "renewal:tok≠chan"}[ch == tok])
+	want := h.RecvExpectMerged(9, body)
+	if e.d != nil {
+		ans := e.d.Ask("tokrun 512 2097152 " + strings.Join(strings.Fields(line)[2:], " "))
+		var exp []string
+		for _, t := range strings.Fields(ans) {
+			if t == "rej" {
+				exp = append(exp, fmt.Sprintf("0 status:%d -", uint32(ua.StatusBadSecurityChecksFailed)))
+			} else {
+				exp = append(exp, h.RecvExpectFromModel(t))
+			}
+		}
+		if strings.Join(exp, " | ") != first+" | "+second {
+			e.r.Disagree(line, ans+" => "+strings.Join(exp, " | "), first+" | "+second)
+		}
+	}
+	e.r.Notes = append(e.r.Notes, fmt.Sprintf("copy after renewal, client channel %d first token %d mode %d: original %s, copy after renewal+expiry %s",
+		ch, tok, mode, map[bool]string{true: "delivered", false: "NOT delivered"}[first == want], map[bool]string{true: "DELIVERED AGAIN", false: "rejected (" + strings.Fields(second)[1] + ")"}[second == want]))
+	if first != want {
+		e.fail(line, "", "the original frame is not delivered: "+first)
+		return
+	}
+	if second == want {
+		// the copy is delivered again although its token was replaced and has expired
+		sig := ""
+		if ch != tok { // with token id = channel id the expiry works and the copy must be rejected
+			sig = sigReplay
+			e.r.Confirm(sigReplay, fmt.Sprintf("client channel %d, mode %d: frame of token %d delivered, token renewed by %d, expiry of token %d ran, the captured frame re-sent is delivered again", ch, mode, tok, tok+1, tok))
+		}
+		e.fail(line, sig, "a frame captured under the replaced and expired token is delivered a second time after the renewal")
+	}
+}
+
+// opnReplayCase: a server channel (the server's default unsecured configuration) receives
+// the same OpenSecureChannel request frame twice.
+func (e *env) opnReplayCase() {
+	cfg := h.RecvNoneConfig()
+	cfg.LocalKey, cfg.Certificate = e.keyA.Key, e.keyA.CertDER
+	rc, err := h.RecvFreshChannel(cfg, h.RecvAck(65535, 65535, 512, 2*1024*1024), true, 77, 5)
+	if err != nil {
+		e.r.InfraError = "channel: " + err.Error()
+		return
+	}
+	defer rc.Close()
+	req := &ua.OpenSecureChannelRequest{
+		RequestHeader: &ua.RequestHeader{AuthenticationToken: ua.NewTwoByteNodeID(0), Timestamp: time.Unix(1700000000, 0).UTC(), RequestHandle: 1, AdditionalHeader: ua.NewExtensionObject(nil)},
+		RequestType:   ua.SecurityTokenRequestTypeIssue, SecurityMode: ua.MessageSecurityModeNone, RequestedLifetime: 3600000,
+	}
+	tb, _ := ua.Encode(ua.NewFourByteExpandedNodeID(0, ua.ServiceTypeID(req)))
+	bb, err := ua.Encode(req)
+	if err != nil {
+		e.r.InfraError = "OPN request does not encode: " + err.Error()
+		return
+	}
+	lp := func(p []byte) []byte {
+		if p == nil {
+			return []byte{0xff, 0xff, 0xff, 0xff}
+		}
+		return append([]byte{byte(len(p)), byte(len(p) >> 8), 0, 0}, p...)
+	}
+	f := []byte("OPNF\x00\x00\x00\x00\x00\x00\x00\x00")
+	f = append(f, lp([]byte(ua.SecurityPolicyURINone))...)
+	f = append(f, lp(nil)...)
+	f = append(f, lp(nil)...)
+	f = append(f, 1, 0, 0, 0, 1, 0, 0, 0) // sequence number 1, request id 1
+	f = append(f, tb...)
+	f = append(f, bb...)
+	f[4], f[5] = byte(len(f)), byte(len(f)>>8)
+	// the responses are read and counted on the peer side
+	responses := make(chan int, 1)
+	go func() {
+		n := 0
+		hdr := make([]byte, 8)
+		for {
+			rc.Peer.SetReadDeadline(time.Now().Add(3 * time.Second))
+			if _, err := io.ReadFull(rc.Peer, hdr); err != nil {
+				break
+			}
+			rest := make([]byte, int(hdr[4])|int(hdr[5])<<8|int(hdr[6])<<16-8)
+			if _, err := io.ReadFull(rc.Peer, rest); err != nil {
+				break
+			}
+			if string(hdr[:3]) == "OPN" {
+				n++
+			}
+		}
+		responses <- n
+	}()
+	var got []string
+	for i := 0; i < 2; i++ {
+		rc.Peer.Write(f)
+		rc.Conn.SetReadDeadline(time.Now().Add(20 * time.Second))
+		ctx, cancel := context.WithTimeout(context.Background(), 20*time.Second)
+		got = append(got, h.RecvResultText(rc.SC.Receive(ctx)))
+		cancel()
+	}
+	n := <-responses
+	table := rc.SC.VerifInstanceTable()
+	line := "opn-replay server None: the same OpenSecureChannel request frame (sequence number 1, request id 1) twice"
+	e.r.Count(line, true)
+	e.r.Hit("adversary:opn-copy")
+	e.r.Notes = append(e.r.Notes, fmt.Sprintf("OPN request frame sent twice to a server channel: results %v, %d OpenSecureChannel responses on the wire, instance table %v", got, n, table))
+	if got[0] != "0 nil -" || n < 1 {
+		e.fail(line, "", fmt.Sprintf("the original OpenSecureChannel request is not handled: %v, %d responses", got, n))
+		return
+	}
+	if got[1] == "0 nil -" {
+		e.r.Confirm(sigReplay, fmt.Sprintf("server channel: the same OPN request frame sent twice is handled twice (%d OpenSecureChannel responses sent, instance table %v)", n, table))
+		e.fail(line, sigReplay, fmt.Sprintf("a verbatim copy of the OpenSecureChannel request is handled a second time: %d responses, instance table %v", n, table))
+	}
+}
+
 // replay parses a history line back into a case.
 func (e *env) replay(line string) {
 	f := strings.Fields(line)
@@ -514,6 +676,11 @@ func main() {
 	for _, l := range o.CorpusLines() {
 		e.replay(l)
 	}
+	for _, mode := range []ua.MessageSecurityMode{ua.MessageSecurityModeSign, ua.MessageSecurityModeSignAndEncrypt} {
+		e.renewalCase(7, 1, mode) // token id ≠ channel id: the copy is delivered again
+		e.renewalCase(5, 5, mode) // token id = channel id: the expiry closes the window
+	}
+	e.opnReplayCase()
 	n := o.N(150, 3000)
 	for i := 0; i < n && r.InfraError == ""; i++ {
 		adv := []string{"none", "copy", "copy", "late", "dup"}[i%5]
@@ -521,7 +688,7 @@ func main() {
 			e.runCase(hc)
 		}
 	}
-	for _, b := range []string{"adversary:none", "adversary:copy", "adversary:late", "mode:2", "mode:3", "kind:server", "kind:client", "model:rej", "model:cont", "model:merged"} {
+	for _, b := range []string{"adversary:none", "adversary:copy", "adversary:late", "adversary:copy-after-renewal", "adversary:opn-copy", "mode:2", "mode:3", "kind:server", "kind:client", "model:rej", "model:cont", "model:merged"} {
 		if r.Distribution[b] == 0 && (d != nil || !strings.HasPrefix(b, "model:")) {
 			r.Unreached = append(r.Unreached, b)
 		}
